@@ -21,12 +21,13 @@ import (
 
 // Job is one controlled run: a random walk of commands (or an explicit script).
 type Job struct {
-	Kind    string   `json:"kind"` // "ctl" | "stress" | "stoprace"
-	Workers uint64   `json:"workers"`
-	Max     uint64   `json:"max"`
-	Seed    int64    `json:"seed"`
-	Len     int      `json:"len"`
-	Script  []string `json:"script,omitempty"` // explicit commands (replay / exhaustive)
+	Kind     string   `json:"kind"` // "ctl" | "stress" | "stoprace"
+	Workers  uint64   `json:"workers"`
+	Max      uint64   `json:"max"`
+	Seed     int64    `json:"seed"`
+	Len      int      `json:"len"`
+	MaxFirst bool     `json:"max_first,omitempty"` // MaxWorkers option given before Workers
+	Script   []string `json:"script,omitempty"`    // explicit commands (replay / exhaustive)
 }
 
 type Step struct {
@@ -83,7 +84,7 @@ func ChildMain() {
 func runCtl(j Job) Outcome {
 	out := Outcome{Job: j, Stats: map[string]int{}}
 	r := rand.New(rand.NewSource(j.Seed))
-	c := New(j.Workers, j.Max)
+	c := New(j.Workers, j.Max, j.MaxFirst)
 	o, ok := c.Quiesce()
 	if !ok {
 		out.Unquiet = true
@@ -95,7 +96,7 @@ func runCtl(j Job) Outcome {
 	stopping := false // a stop condition has been raised by the harness
 	step := func(cmd string) bool {
 		before := o
-		if c.Stopped() { // a failing targeter stops the attack by itself
+		if c.TargeterErrors() > 0 { // a failing targeter stops the attack by itself
 			stopping = true
 		}
 		co := "-"
@@ -118,6 +119,10 @@ func runCtl(j Job) Outcome {
 			co = c.Receive()
 			if co == "c" {
 				terminated = true
+				if !stopping && c.TargeterErrors() == 0 {
+					out.Findings = append(out.Findings, Finding{Kind: "closed_without_stop_condition",
+						What: "the results channel was closed although the pacer never said stop, no duration was set, the targeter never failed and Stop was not called"})
+				}
 			}
 		case cmd == "S":
 			if c.Stop() {
@@ -331,7 +336,11 @@ func runStress(j Job) Outcome {
 		}
 		atomic.AddInt64(&inflight, -1)
 	})
-	atk := vegeta.NewAttacker(vegeta.Workers(j.Workers), vegeta.MaxWorkers(j.Max), vegeta.Client(client))
+	opts := []func(*vegeta.Attacker){vegeta.Workers(j.Workers), vegeta.MaxWorkers(j.Max)}
+	if j.MaxFirst {
+		opts[0], opts[1] = opts[1], opts[0]
+	}
+	atk := vegeta.NewAttacker(append(opts, vegeta.Client(client))...)
 	limit := uint64(j.Len)
 	stopAt := -1
 	if r.Intn(2) == 0 {
@@ -372,6 +381,11 @@ func runStress(j Job) Outcome {
 		if s != uint64(i) {
 			ok = false
 		}
+	}
+	if stopAt < 0 && failAfter < 0 && uint64(len(got)) != limit {
+		out.Findings = append(out.Findings, Finding{Kind: "attack_ended_early_or_late",
+			What:     "stress: no Stop call and no targeter failure, yet the number of results differs from the number of hits the pacer released before saying stop",
+			Expected: fmt.Sprint(limit), Observed: fmt.Sprint(len(got))})
 	}
 	if !ok {
 		out.Findings = append(out.Findings, Finding{Kind: "results_not_exactly_started_hits",
@@ -474,7 +488,7 @@ func RunCommon(prop string, c *run.Ctx, s *kit.Summary, children func([]Job, int
 		for i := 0; i < nctl; i++ {
 			w := uint64(r.Intn(4))
 			m := uint64(1 + r.Intn(3))
-			jobs = append(jobs, Job{Kind: "ctl", Workers: w, Max: m, Seed: r.Int63(), Len: 4 + r.Intn(14)})
+			jobs = append(jobs, Job{Kind: "ctl", Workers: w, Max: m, Seed: r.Int63(), Len: 4 + r.Intn(14), MaxFirst: r.Intn(2) == 0})
 		}
 		// exhaustive short command sequences for the smallest configurations
 		if c.Tier == "thorough" {
@@ -483,7 +497,7 @@ func RunCommon(prop string, c *run.Ctx, s *kit.Summary, children func([]Job, int
 			rec = func(pre []string, d int) {
 				if d == 0 {
 					for _, cfg := range [][2]uint64{{0, 1}, {1, 1}, {1, 2}, {2, 2}, {3, 2}} {
-						jobs = append(jobs, Job{Kind: "ctl", Workers: cfg[0], Max: cfg[1], Script: append([]string{}, pre...)})
+						jobs = append(jobs, Job{Kind: "ctl", Workers: cfg[0], Max: cfg[1], Script: append([]string{}, pre...), MaxFirst: len(jobs)%2 == 0})
 					}
 					return
 				}
@@ -496,7 +510,7 @@ func RunCommon(prop string, c *run.Ctx, s *kit.Summary, children func([]Job, int
 		nstress := c.N(150, 4000)
 		for i := 0; i < nstress; i++ {
 			m := uint64(1 + r.Intn(64))
-			jobs = append(jobs, Job{Kind: "stress", Workers: uint64(r.Intn(70)), Max: m, Seed: r.Int63(), Len: 50 + r.Intn(c.N(400, 3000))})
+			jobs = append(jobs, Job{Kind: "stress", Workers: uint64(r.Intn(70)), Max: m, Seed: r.Int63(), Len: 50 + r.Intn(c.N(400, 3000)), MaxFirst: r.Intn(2) == 0})
 		}
 		for k := 2; k <= 8; k *= 2 {
 			jobs = append(jobs, Job{Kind: "stoprace", Workers: uint64(k), Len: c.N(20000, 400000)})
@@ -519,6 +533,7 @@ func RunCommon(prop string, c *run.Ctx, s *kit.Summary, children func([]Job, int
 			s.Violate(kit.Violation{Kind: f.Kind, What: f.What, Input: o.Job, Expected: f.Expected, Observed: f.Observed, Key: f.Key})
 		}
 		s.Count("job:" + o.Job.Kind)
+		s.Count(fmt.Sprintf("option_order:max_first=%v", o.Job.MaxFirst))
 		s.Count(fmt.Sprintf("cfg:w%d/m%d", min64(o.Job.Workers, 4), min64(o.Job.Max, 4)))
 		for k, v := range o.Stats {
 			s.CountN(k, v)
